@@ -319,6 +319,12 @@ func apply3(op string, in *model3d.Mesh, first bool) (out *model3d.Mesh, st opSt
 					c2[vs[i]] = want[i]
 				}
 				c2[vs[swapIn]] = want[swapIn]
+				// a component without any constraint has no determined position (the linear system is singular there and
+				// the result is NaN): such constraint sets are not valid inputs.  Which vertices fall on the constrained
+				// indices depends on the order of nearly equal coordinates, i.e. on rounding noise of earlier steps.
+				if !constraintsCoverComponents(in, c1) || !constraintsCoverComponents(in, c2) {
+					continue
+				}
 				r2 := deform(c2)
 				out = r2
 				for k, r := range []*model3d.Mesh{r1, r2} {
@@ -538,6 +544,36 @@ func apply3(op string, in *model3d.Mesh, first bool) (out *model3d.Mesh, st opSt
 		st.ExactOK = math.Abs(a-b) <= 1e-9*math.Max(1, math.Abs(a)) && math.Abs(in.Area()-out.Area()) <= 1e-9*math.Max(1, in.Area())
 	}
 	return out, st
+}
+
+// constraintsCoverComponents: every connected component of m has at least one constrained vertex
+func constraintsCoverComponents(m *model3d.Mesh, cons model3d.ARAPConstraints) bool {
+	seen := map[model3d.Coord3D]bool{}
+	for _, v := range m.VertexSlice() {
+		if seen[v] {
+			continue
+		}
+		covered := false
+		queue := []model3d.Coord3D{v}
+		seen[v] = true
+		for len(queue) > 0 {
+			x := queue[0]
+			queue = queue[1:]
+			if _, ok := cons[x]; ok {
+				covered = true
+			}
+			for _, y := range neighbours(m, x) {
+				if !seen[y] {
+					seen[y] = true
+					queue = append(queue, y)
+				}
+			}
+		}
+		if !covered {
+			return false
+		}
+	}
+	return true
 }
 
 // blurRef3: the documented blur rule with the neighbour relation fixed by the initial coordinates
